@@ -12,6 +12,11 @@ import sys
 
 ROOT = os.path.dirname(os.path.dirname(os.path.abspath(__file__)))
 HINTS = {
+    'm8': ('prefer a clause of the statement or a part of the quantified domain that none of them touches; think of other '
+           'legal forms of the same argument (tuples, lists, numpy scalars and integer types, pathlib paths, opened files, '
+           'relative paths, generators), of using one object for a second job after a first one finished or failed, of '
+           'shortcuts that only switch on above a size threshold, of the iteration order of sets and dicts, of what '
+           'happens after a refused / failing call, and of an interaction with another documented method of the same class'),
     'm7': ('prefer a clause of the statement or a part of the quantified domain that none of them touches; think of state '
            'that survives between calls (module-level or class-level data, caches keyed by identity or by path, defaults '
            'evaluated once), of numeric edge values (exact zeros, negative zero, equal values, values at a format width), '
